@@ -3,11 +3,13 @@ message-policy TSN contiguity, conservation + FIFO for every policy, round-robin
 no-starvation, mode switch only on an empty queue."""
 import os
 import re
-import vlib
+import vlib, simcommon
 
 PROP = "C17"
 PROPS_FILE = "props/C17.v"
-COQ_FILES = ["gen/Gen.v", "model/PQ.v", "proofs/PQProofs.v", "proofs/PQFairProofs.v", "props/C17.v"]
+COQ_FILES = ["gen/Gen.v", "model/PQ.v", "proofs/PQProofs.v", "proofs/PQFairProofs.v", "props/C17.v",
+             "model/Handshake.v", "proofs/HandshakeProofs.v", "proofs/HandshakeReach.v", "model/Inbound.v", "proofs/InboundProofs.v", "props/C17Framing.v"]
+EXTRA_PROPS_FILES = ["props/C17Framing.v"]
 TRUSTED_BASE = [
     "Coq 8.16.1 kernel; vm_compute only in Examples (non-vacuity, former witness); no native_compute",
     "hand-written model coq/model/PQ.v of pending_queue.go + association_interleaving_options.go: chunk pointers are records "
@@ -39,6 +41,10 @@ def correspondence(ctx):
     vlib.monitor(ctx, "pq-scheduler-predicates", "TestVerifPQMonitor",
                  {"VERIF_N": ctx.scale(40, 800), "VERIF_OPS": ctx.scale(3000, 6000), "VERIF_STYLES": "witness,atomic,stalled"},
                  fail_prefixes=("PQMON key=",), classify=_key, summary_prefix="PQMONSUM")
+    # negotiation / wrong-kind clauses (props/C17Framing.v): handshake step records incl. a foreign peer announcing every
+    # subset of {FORWARD-TSN, I-DATA, I-FORWARD-TSN}, and the exhaustive inbound dispatch matrix
+    simcommon.hs_step_run(ctx, "hs-special-framing", "TestVerifSimHsSpecial", {}, "SIMHSSPECIAL")
+    vlib.differential(ctx, "dispatch-matrix", "TestVerifInboundMatrix", "inbound", {})
 
 
 def search(ctx):
@@ -56,7 +62,7 @@ LEVEL_TEXT = ("Coq theorems over all operation sequences (pushes of whole messag
               "iteration, setInterleaving effective only on an empty queue. Model tied to pending_queue.go by an op-sequence "
               "differential with full state dumps (float tags compared as exact rationals) and by monitors that evaluate the "
               "same predicates on the implementation.")
-LEVEL_NOTE = ("Float64 rounding of WFQ tags is outside the theorems. The negotiation and wrong-kind-ABORT clauses are not decided "
-              "by this check module. Finding wfq-unfair-stale-selection (virtual time advanced only in Pop) was found by the "
+LEVEL_NOTE = ("Float64 rounding of WFQ tags is outside the theorems. The negotiation and wrong-kind-ABORT clauses are decided on the handshake and inbound-dispatch "
+              "models (props/C17Framing.v) with their own correspondences run by this check. Finding wfq-unfair-stale-selection (virtual time advanced only in Pop) was found by the "
               "fairness monitor + model refutation and is fixed in /repo by f24bbf1; its witness is replayed from corpus/pq.ops.")
 TECHNIQUE = "Coq proof (invariants over all runs, SCFQ tag argument over scaled integers) + differential correspondence + monitors"
